@@ -664,7 +664,7 @@ func navigate(c Case, srv *server, latest map[string]string, spans map[string][]
 		}
 		for ch := 0; ch <= max; ch++ {
 			// classify the position against the recorded spans of this line
-			var in *gen.Span
+			var in, prev *gen.Span
 			boundary := false
 			for i := range sp {
 				s := &sp[i]
@@ -675,6 +675,7 @@ func navigate(c Case, srv *server, latest map[string]string, spans map[string][]
 					in = s
 				} else if ch == s.Col+s.Len {
 					boundary = true
+					prev = s
 				}
 			}
 			pi++
@@ -690,6 +691,33 @@ func navigate(c Case, srv *server, latest map[string]string, spans map[string][]
 				return
 			}
 			where := fmt.Sprintf("at (%d,%d)", line, ch)
+			checkUse := func(in *gen.Span) *core.Violation {
+				hm, _ := h.result.(map[string]any)
+				if hm == nil {
+					return viol("navigation", "no-hover-on-variable-use", fmt.Sprintf("%s is inside the use of $%s (declared %s) but hover is null\n%s", where, in.Name, in.Type, text))
+				}
+				sl, sc, el, ec, rok := rangeOf(hm["range"])
+				if !rok || sl != in.Line || sc != in.Col || el != in.Line || ec != in.Col+in.Len {
+					return viol("navigation", "hover-range-wrong", fmt.Sprintf("%s inside $%s: hover range %s, expected line %d chars [%d,%d)\n%s", where, in.Name, canonJSON(hm["range"]), in.Line, in.Col, in.Col+in.Len, text))
+				}
+				val := ""
+				if cm, ok := hm["contents"].(map[string]any); ok {
+					val, _ = cm["value"].(string)
+				}
+				if !strings.Contains(val, "$"+in.Name) || !strings.Contains(val, in.Type) {
+					return viol("navigation", "hover-names-wrong-variable-or-type", fmt.Sprintf("%s inside $%s: hover says %q, expected $%s and type %s\n%s", where, in.Name, val, in.Name, in.Type, text))
+				}
+				dm, _ := d.result.(map[string]any)
+				ds := decl[in.Name]
+				if dm == nil {
+					return viol("navigation", "no-definition-on-variable-use", fmt.Sprintf("%s inside $%s: definition is null\n%s", where, in.Name, text))
+				}
+				sl, sc, el, ec, rok = rangeOf(dm["range"])
+				if dm["uri"] != u || !rok || sl != ds.Line || sc != ds.Col || el != ds.Line || ec != ds.Col+ds.Len {
+					return viol("navigation", "definition-range-wrong", fmt.Sprintf("%s inside $%s: definition %s, expected %s line %d chars [%d,%d)\n%s", where, in.Name, canonJSON(d.result), u, ds.Line, ds.Col, ds.Col+ds.Len, text))
+				}
+				return nil
+			}
 			switch {
 			case in == nil:
 				res.Probes["nav_positions_outside_any_use"]++
@@ -699,33 +727,15 @@ func navigate(c Case, srv *server, latest map[string]string, spans map[string][]
 				}
 			case in.Kind == "use":
 				res.Probes["nav_positions_inside_variable_use"]++
-				hm, _ := h.result.(map[string]any)
-				if hm == nil {
-					res.Violation = viol("navigation", "no-hover-on-variable-use", fmt.Sprintf("%s is inside the use of $%s (declared %s) but hover is null\n%s", where, in.Name, in.Type, text))
-					return
+				v := checkUse(in)
+				if v != nil && prev != nil && prev.Kind == "use" && checkUse(prev) == nil {
+					// $a$b: the position between the two is the end of one use and the start of the
+					// other; a position is a gap between characters, either neighbour is an answer
+					res.Probes["nav_gap_between_two_adjacent_uses_answered_with_the_left_one"]++
+					v = nil
 				}
-				sl, sc, el, ec, rok := rangeOf(hm["range"])
-				if !rok || sl != in.Line || sc != in.Col || el != in.Line || ec != in.Col+in.Len {
-					res.Violation = viol("navigation", "hover-range-wrong", fmt.Sprintf("%s inside $%s: hover range %s, expected line %d chars [%d,%d)\n%s", where, in.Name, canonJSON(hm["range"]), in.Line, in.Col, in.Col+in.Len, text))
-					return
-				}
-				val := ""
-				if cm, ok := hm["contents"].(map[string]any); ok {
-					val, _ = cm["value"].(string)
-				}
-				if !strings.Contains(val, "$"+in.Name) || !strings.Contains(val, in.Type) {
-					res.Violation = viol("navigation", "hover-names-wrong-variable-or-type", fmt.Sprintf("%s inside $%s: hover says %q, expected $%s and type %s\n%s", where, in.Name, val, in.Name, in.Type, text))
-					return
-				}
-				dm, _ := d.result.(map[string]any)
-				ds := decl[in.Name]
-				if dm == nil {
-					res.Violation = viol("navigation", "no-definition-on-variable-use", fmt.Sprintf("%s inside $%s: definition is null\n%s", where, in.Name, text))
-					return
-				}
-				sl, sc, el, ec, rok = rangeOf(dm["range"])
-				if dm["uri"] != u || !rok || sl != ds.Line || sc != ds.Col || el != ds.Line || ec != ds.Col+ds.Len {
-					res.Violation = viol("navigation", "definition-range-wrong", fmt.Sprintf("%s inside $%s: definition %s, expected %s line %d chars [%d,%d)\n%s", where, in.Name, canonJSON(d.result), u, ds.Line, ds.Col, ds.Col+ds.Len, text))
+				if v != nil {
+					res.Violation = v
 					return
 				}
 			default: // built-in function name
